@@ -3,7 +3,9 @@
   compiler) and the literal `let` initialisers of `encrypt_parts` and of the three `encrypt_*_protection` setters
   (token-level scan inside the function: those bodies are outside the fragment) as read from the source on this
   run are the values the hand models use (`Umya/Model/Crypt.lean`, `Umya/Model/PwHash.lean`).
-  Only the constants are tied here; the functions that use them are tied by the correspondence check alone.
+  Only the constants are tied here; the functions are compiled and proved equal to the hand models in `FnsGenCryptBuf.lean` (buffer helpers,
+  `hash`), `FnsGenCryptPw.lean` (C15: `convert_password_to_hash`, the three setters) and `FnsGenCryptPkg.lean` (C14: `convert_password_to_key`,
+  `create_iv`, `crypt_package`, `build_encryption_info`, `encrypt_parts`).
 -/
 import Umya.Lemmas.FnsGen
 import Umya.Model.Crypt
